@@ -55,7 +55,7 @@ def rule_origin_filter(P, R, rid):
     rs = [(v, {tuple(f) for f in facts}) for v, facts, nn in returns(iv) if v is not None and not isinstance(v, ast.Constant)]
     ok = len(rs) == 1 and ast.unparse(rs[0][0]) == 'status' and \
         {('status.isolated', False), ('status.supvisors_id.is_valid(ipv4_address)', True),
-         ('len(identifiers) != 1', False)} <= rs[0][1]
+         ('len(identifiers) == 1', True)} <= rs[0][1]
     R.check(rid, ok, 'is_valid() returns a status only if unique, not isolated and the address matches',
             'filter|is_valid', iv.loc(), 'Context.is_valid returns a status under %s' % [sorted(x[1]) for x in rs])
     defs = {a.targets[0].id: ast.unparse(a.value) for a in own_nodes(iv.node) if isinstance(a, ast.Assign)
@@ -217,7 +217,7 @@ def run(P, R):
     pp = P.unit('SupervisorProxyServer.push_publication')
     fm = factmap(pp)
     pm = [c for c in own_nodes(pp.node) if isinstance(c, ast.Call) and call_text(c) == 'proxy.push_message']
-    ok = len(pm) == 1 and fm.has(pm[0], 'identifier != self.local_identifier', True) and \
+    ok = len(pm) == 1 and fm.has(pm[0], 'identifier == self.local_identifier', False) and \
         any(isinstance(l, ast.For) and ast.unparse(l.iter) == 'self.supvisors.mapper.instances' for l in own_nodes(pp.node))
     R.check(r3, ok, 'a publication goes to every known peer but the local one (through get_proxy)', 'push|publication',
             pp.loc(), 'push_publication does not iterate all mapper instances except the local one')
@@ -266,7 +266,7 @@ def run(P, R):
             '_is_authorized does not read the state of the local instance as seen by the peer (%s)' %
             {k: defs.get(k) for k in ('state', 'instance_state', 'local_status_payload')})
     inc = [fs for k, fs in rs if k == 'INCONSISTENT']
-    ok = len(inc) == 1 and ('strategies_payload != RPCInterface(self.supvisors).get_strategies()', True) in inc[0] and \
+    ok = len(inc) == 1 and ('strategies_payload == RPCInterface(self.supvisors).get_strategies()', False) in inc[0] and \
         'self.proxy.supvisors.get_strategies' in defs.get('strategies_payload', '')
     R.check(r5, ok, 'differing strategies make the peer INCONSISTENT', 'verdict|inconsistent', ia.loc(),
             '_is_authorized does not return INCONSISTENT exactly when the remote get_strategies() differs from the '
@@ -274,7 +274,7 @@ def run(P, R):
     auth = [fs for k, fs in rs if k == 'AUTHORIZED']
     ok = len(auth) == 1 and {('local_status_payload is None', False),
                              ('instance_state == SupvisorsInstanceStates.ISOLATED', False),
-                             ('strategies_payload != RPCInterface(self.supvisors).get_strategies()', False)} <= auth[0]
+                             ('strategies_payload == RPCInterface(self.supvisors).get_strategies()', True)} <= auth[0]
     R.check(r5, ok, 'AUTHORIZED only after both checks passed', 'verdict|authorized', ia.loc(),
             '_is_authorized returns AUTHORIZED under %s' % [sorted(x) for x in auth])
     gs = P.unit('RPCInterface.get_strategies')
